@@ -104,10 +104,10 @@ impl<Error: Send + 'static> DecodeScheduler<Error> {
 					NextStep::End => break,
 				},
 				Err(error) => {
-					#[cfg(kira_verif)]
-					crate::verif::point("decode_error", Arc::as_ptr(&self.shared) as usize, 0);
 					self.error_producer.push(error).ok();
 					self.shared.encountered_error.store(true, Ordering::SeqCst);
+					#[cfg(kira_verif)]
+					crate::verif::point("decode_error", Arc::as_ptr(&self.shared) as usize, 0);
 					// the sound stops once it sees the error; there's nothing
 					// left to decode, so end the thread instead of retrying in
 					// a tight loop
